@@ -4,6 +4,7 @@ import FeatherModel.Lemmas.CodeTables
 import FeatherModel.Lemmas.PoolWrite
 import FeatherModel.Lemmas.CodeNoPanic
 import FeatherModel.Lemmas.ClassParse
+import FeatherModel.Lemmas.BootstrapWrite
 
 /-!
 # C02 — the class writer emits a well-formed file denoting exactly the given class
@@ -13,8 +14,8 @@ label table and the tables written from it) and of `PoolWrite` (`Model/PoolWrite
 instruction list of the modelled instruction set (operand-less instructions, pushes, `ldc` family, local variable
 instructions in all three widths, `iinc`, `ret`, the 16 conditional branches, `goto`, `jsr`, both switches, field
 access, `invokevirtual/special/static/interface`, `new`, `newarray`, `anewarray`, `checkcast`, `instanceof`,
-`multianewarray` — everything `write_code` handles except `invokedynamic` and `ldc` of handles / method types /
-dynamic constants, which involve the BootstrapMethods attribute) — there is no bound on the length of the method, the
+`multianewarray`, `invokedynamic` — every variant of duke's `Instruction`; the pool index of an instruction with a
+constant is the one the pool model hands out) — there is no bound on the length of the method, the
 number of jumps or the number of attempts.
 
 What "denotes" means is *not* defined by inverting the writer: `Spec/CodeDecode.lean` is a decoder transcribed from
@@ -316,6 +317,24 @@ theorem pool_two_slot {p : PoolWrite.Pool} (hw : p.WF) {e : PoolWrite.Entry} {i 
     (h2 : PoolWrite.slots e = 2) : p.get (i + 1) = none :=
   PoolWrite.upper_half_unused hw hg h2
 
+/-- bootstrap methods are de-duplicated on (handle, argument indices): the same pair gets the same index of the
+`BootstrapMethods` table and the table does not grow -/
+theorem bootstrap_put_idem {bs bs' : List BootstrapWrite.Bsm} {b : BootstrapWrite.Bsm} {i : Nat}
+    (h : BootstrapWrite.put bs b = some (i, bs')) : BootstrapWrite.put bs' b = some (i, bs') :=
+  BootstrapWrite.put_idem h
+
+/-- the index written into a `Dynamic` / `InvokeDynamic` entry designates that bootstrap method in the table, and
+indices handed out earlier keep their meaning -/
+theorem bootstrap_put_get {bs bs' : List BootstrapWrite.Bsm} {b : BootstrapWrite.Bsm} {i : Nat}
+    (h : BootstrapWrite.put bs b = some (i, bs')) :
+    bs'[i]? = some b ∧ ∀ (j : Nat) (b' : BootstrapWrite.Bsm), bs[j]? = some b' → bs'[j]? = some b' :=
+  ⟨BootstrapWrite.put_get h, fun _ _ hj => BootstrapWrite.put_stable h hj⟩
+
+/-- bootstrap method indices fit `u16` -/
+theorem bootstrap_index_range {bs bs' : List BootstrapWrite.Bsm} {b : BootstrapWrite.Bsm} {i : Nat}
+    (hl : bs.length ≤ 65536) (h : BootstrapWrite.put bs b = some (i, bs')) : i ≤ 65535 ∧ bs'.length ≤ 65536 :=
+  BootstrapWrite.put_range hl h
+
 /-- the pool refuses (cleanly) only when `constant_pool_count` would leave `u16` -/
 theorem pool_put_fails {p : PoolWrite.Pool} {e : PoolWrite.Entry} (h : PoolWrite.put p e = none) :
     PoolWrite.find e p.entries = none ∧ p.count + PoolWrite.slots e > 65535 := by
@@ -367,8 +386,7 @@ example : ClassParse.code (ClassWrite.codeBody ⟨1, 2, [0xb1], [[0, 1, 0, 0]], 
 /-! ## 7. Failure: clean errors, and the places where the Rust code panics instead -/
 
 /-- **Clean failure.** If the worst-case encoding of the method (every jump in its long form) stays below 65533
-bytes, no `tableswitch` spans more than `i32::MAX` keys and no `invokeinterface` descriptor needs more than 255
-slots, `write_code` never panics: it succeeds or returns the
+bytes and no `tableswitch` spans more than `i32::MAX` keys, `write_code` never panics: it succeeds or returns the
 explicit error. `_partial`: outside this domain the Rust code panics at the places witnessed below (the property
 asks for clean failure everywhere). -/
 theorem write_fails_cleanly_partial (is : List Insn) (hd : noPanicDom is = true) :
@@ -403,13 +421,6 @@ theorem truncated_last_label_panic_witness :
     (fun wide => by rw [pass_replicate_wide]; exact hs) hw (by rw [hpl]; exact hp) hu .eq 65533
   rw [hpl] at this
   exact this
-
-set_option maxRecDepth 8192 in
-/-- `invokeinterface` with more than 254 argument slots: `size += 1` in `get_arguments_size` (descriptor.rs:367)
-overflows `u8` (listed under C16 as well) -/
-theorem invokeinterface_count_panic_witness :
-    writeCode [.invokeinterface 5 (40 :: (List.replicate 127 74 ++ [73, 41, 86]))] = .panic := by
-  rfl
 
 /-- `high - low + 1` (simple_class_writer.rs:928) overflows `i32` -/
 theorem tableswitch_range_panic_witness :
